@@ -28,6 +28,8 @@ SPEC = {
     'assumptions': [],
     'exhaustive': True,
 }
+SPEC['explanation'] += ' T9.whole: every pass of the block loop of reverse_iter_lines looks at the whole buffer (new block + carry-over) before going on.'
+SPEC['decided'] += ['block loop examines the whole buffer']
 MANIFEST = {
     'technique': 'regex-AST extraction of the line-ending alternation compared with a frozen boundary table; delegation and guard-shape checks',
     'text': ('Decides that the set of recognised line breaks is exactly right (the \\x2028 typo class of defect), that '
